@@ -62,6 +62,10 @@ func Unsupported(msg string) {}
 func Cut(msg string)         {}
 func Note(msg string)        {}
 
+// Weak marks the current path as depending on an uninterpreted stand-in (named by reason): a
+// violation found on it is reported only if a native replay confirms it.
+func Weak(reason string) {}
+
 // WrapIndex returns the operand index of %w in a constant format, or -1.
 func WrapIndex(format string) int { return -1 }
 func IsLit(s string) bool         { return false }
